@@ -388,12 +388,12 @@ func ruleG3(p *Prog, r *Report) {
 		// on the first error: the result channel must hold every result, i.e. have the capacity of the job channel
 		var jobCap, resCap *ssa.MakeChan
 		if callee := p.goCallee(g); callee != nil {
-			sig := callee.Signature
+			_ = callee.Signature
 			for i, a := range g.Call.Args {
-				if i >= sig.Params().Len() {
+				if i >= len(callee.Params) {
 					continue
 				}
-				ch, ok := sig.Params().At(i).Type().Underlying().(*types.Chan)
+				ch, ok := callee.Params[i].Type().Underlying().(*types.Chan)
 				if !ok {
 					continue
 				}
